@@ -967,6 +967,7 @@ pub fn gen_sched_read(rng: &mut Rng, thorough: bool, out: &mut Vec<String>) {
         out.push(format!("sch.read {bound} {rcache} history {u2} complete || {batch}"));
         out.push(format!("sch.read {bound} {rcache} lookup {u2} | epochhash || {batch}"));
         out.push(format!("sch.read {bound} {rcache} audit 0 2 || {batch}"));
+        out.push(format!("sch.read {} {rcache} batchlookup {u0} {u2} || {batch}", bound.min(2)));
         out.push(format!("sch.read {} {rcache} history {u0} recent:1 | audit 1 2 || {batch}", bound.min(2)));
         if !thorough && rcache == "same:default" {
             break;
@@ -1002,6 +1003,7 @@ pub fn gen_sched_poll(rng: &mut Rng, thorough: bool, out: &mut Vec<String>) {
         out.push(format!("sch.poll {bound} {rcache} epochhash || {b1}"));
         out.push(format!("sch.poll {bound} {rcache} lookup {u0} || {b1}"));
         out.push(format!("sch.poll {bound} {rcache} epochhash | lookup {u2} || {b1}"));
+        out.push(format!("sch.poll {bound} {rcache} batchlookup {u0} {u2} || {b1}"));
         // two publishes and a request path that does not queue behind the poller's flush: one preemption more
         out.push(format!("sch.poll 3 {rcache} epochhash || {b1} || {b2}"));
         out.push(format!("sch.poll {} {rcache} history {u0} complete | epochhash || {b1} || {b2}", bound.min(2)));
